@@ -38,6 +38,33 @@ var mfGuard = guardSpec{
 }
 
 func c17(c *Ctx) {
+	c17RefCountedClose(c, "C17.4/chunk-closed-only-without-readers")
+	// a rewind that stays inside the write buffer moves an index INTO the buffer: with retryable sync the bytes already
+	// written to the file stay in front of it (wbufFlushedOffset > 0), so the new index is computed from the buffer
+	// indexes (the old wbufUnwrittenOffset or wbufFlushedOffset), not from file offsets alone
+	if f := c.mustFn("C17.2/in-buffer-rewind-is-buffer-relative", "embedded/appendable/singleapp.(*AppendableFile).SetOffset"); f != nil {
+		r := "C17.2/in-buffer-rewind-is-buffer-relative"
+		n := 0
+		for i, in := range sites(f, storeTo("AppendableFile.wbufUnwrittenOffset")) {
+			v := in.(*ssa.Store).Val
+			if _, isConst := v.(*ssa.Const); isConst {
+				continue // the buffer is dropped as a whole
+			}
+			n++
+			dep := dependsOn(v, func(x ssa.Value) bool {
+				u, ok := x.(*ssa.UnOp)
+				if !ok || u.Op != token.MUL {
+					return false
+				}
+				fl, _ := fieldOf(u.X)
+				return fl == "AppendableFile.wbufUnwrittenOffset" || fl == "AppendableFile.wbufFlushedOffset"
+			})
+			c.check(dep, r, fmt.Sprintf("%s:wbufUnwrittenOffset#%d", fnName(f), i), c.pos(in.Pos()), "computed from the buffer indexes", "the write-buffer index after an in-memory rewind is "+desc(v)+": it ignores the flushed-but-unsynced bytes kept at the front of the buffer (retryable sync), Offset() and the next append are off by wbufFlushedOffset")
+		}
+		if n < 1 {
+			c.undecided(r, "floor", "the in-memory rewind of SetOffset was not found")
+		}
+	}
 	// ---- C17.1 lock pairing and lockset -----------------------------------------------------------
 	c.rulePairing("C17.1/lock-pairing", appPkgs, map[string]string{})
 	c.ruleGuarded("C17.1/lockset-singleapp", appPkgs, aofGuard)
@@ -400,4 +427,72 @@ func c17RewindPersistent(c *Ctx, rr string) {
 		}
 	}
 
+}
+
+// c17RefCountedClose: a cached chunk file is shared by the readers that hold a reference on it; eviction marks it and
+// the last Release closes it. In the methods of refCountedApp the underlying Close is decided by a condition over
+// (refs == 0, evicted), and a flag that feeds such a decision is read BEFORE the same method overwrites it: read after
+// `r.evicted = true` it is the constant true, the file is closed under a reader that is inside ReadAt ("already
+// closed" instead of the written bytes).
+func c17RefCountedClose(c *Ctx, r string) {
+	n := 0
+	for _, f := range c.allFns {
+		if !fnInPkgs(f, []string{"embedded/appendable/multiapp"}) || len(f.Blocks) == 0 || f.Signature.Recv() == nil {
+			continue
+		}
+		if !strings.Contains(f.Signature.Recv().Type().String(), "refCountedApp") {
+			continue
+		}
+		closes := sites(f, func(in ssa.Instruction) bool {
+			cc := callOf(in)
+			_, isDefer := in.(*ssa.Defer)
+			return cc != nil && !isDefer && cc.IsInvoke() && cc.Method.Name() == "Close"
+		})
+		for i, cl := range closes {
+			n++
+			// the branch conditions the call is control dependent on
+			var leaves []ssa.Value
+			for _, b := range f.Blocks {
+				if len(b.Instrs) == 0 {
+					continue
+				}
+				ifi, ok := b.Instrs[len(b.Instrs)-1].(*ssa.If)
+				if !ok {
+					continue
+				}
+				if edgeDominates(b, 0, cl.Block()) || edgeDominates(b, 1, cl.Block()) {
+					leaves = append(leaves, boolLeaves(ifi.Cond)...)
+				}
+			}
+			guarded, stale := false, ""
+			for _, lf := range leaves {
+				d := desc(lf)
+				if strings.Contains(d, ".refs") && strings.Contains(d, "const:0") {
+					guarded = true
+				}
+				if u, ok := lf.(*ssa.UnOp); ok && u.Op == token.MUL {
+					if fl, _ := fieldOf(u.X); fl == "refCountedApp.evicted" {
+						guarded = true
+						for _, st := range sites(f, storeTo("refCountedApp.evicted")) {
+							if instrDominates(st, u) {
+								stale = c.pos(st.Pos())
+							}
+						}
+					}
+				}
+			}
+			construct := fmt.Sprintf("%s:underlying-Close#%d", fnName(f), i)
+			switch {
+			case !guarded:
+				c.fail(r, construct, c.pos(cl.Pos()), "the underlying file is closed without looking at the reference count or the eviction flag")
+			case stale != "":
+				c.fail(r, construct, c.pos(cl.Pos()), "the eviction flag that decides this Close is read after the method itself set it (at "+stale+"): the decision no longer depends on the readers' references, a chunk is closed under a reader that is inside ReadAt")
+			default:
+				c.ok(r, construct, c.pos(cl.Pos()), "decided by refs == 0 / the eviction flag as it was on entry")
+			}
+		}
+	}
+	if n < 2 {
+		c.undecided(r, "floor", fmt.Sprintf("%d underlying Close calls in refCountedApp found (Release, Close confirmed by hand)", n))
+	}
 }
